@@ -232,7 +232,17 @@ TruncDiv(a, b) == IF a >= 0 THEN a \div b ELSE -((-a) \div b)   \* Go's "/"
 Sat(x) == IF x < -DUR THEN -DUR ELSE IF x > DUR - 1 THEN DUR - 1 ELSE x   \* Time.Sub
 Wrap(x) == ((x + DUR) % (2 * DUR)) - DUR                        \* int64 overflow
 
-\* class signature of an instant: range / sign / day part / sub-microsecond part
+\* class signature of an instant: range / sign / day part / sub-microsecond part.
+\* The range classes are the regions in which the pinned arithmetic behaves
+\* uniformly; the harness maps them to real instants:
+\*   near            offset from the epoch fits a time.Duration (1677-09-21 .. 2262-04-11)
+\*   edge_past       in that range, but the microsecond it floors to is not (the 808 ns
+\*                   above -2^63 ns): Duration(us)*Microsecond already wraps
+\*   edge_future     past +2^63-1 ns but its microsecond floor still fits (192 ns)
+\*   sameday_future  past the range, still on the UTC day the range ends on: a
+\*                   saturated Time.Sub lands on the right day by accident
+\*   far_past / far_future   everything else the wire types hold (year 1, 2500, the
+\*                   minimum and maximum timestamp[us] and date32 values, ...)
 TCls(n) ==
     (IF n < -DUR THEN "far_past"
      ELSE IF n >= DUR THEN
@@ -592,7 +602,10 @@ Col(name, a) == [name |-> name, type |-> a.type, nullable |-> a.nullable]
 DeclSchema(ks) ==
     [i \in 1 .. Len(ks) |-> Col(FieldName(i), ArrowOf(KindField(ks[i]).t, KindField(ks[i]).tag, 0))]
 
-Structs == UNION {[1 .. n -> Kinds] : n \in 1 .. MaxFields}
+\* (explicit tuples: TLC cannot spill lazily represented function values to disk)
+Structs == {<<a>> : a \in Kinds}
+           \cup (IF MaxFields >= 2 THEN {<<a, b>> : a \in Kinds, b \in Kinds} ELSE {})
+           \cup (IF MaxFields >= 3 THEN {<<a, b, c>> : a \in Kinds, b \in Kinds, c \in Kinds} ELSE {})
 
 \* structs that exist as static Go types in the harness (full dispatch needs a
 \* compile-time type for the registration generics)
@@ -684,6 +697,12 @@ CellPatterns(n, rel) ==
     IF rel = "equal" THEN [1 .. n -> {"val", "null"}] ELSE {[i \in 1 .. n |-> "val"]}
 
 --------------------------------------------------------------------------
+\* an explicit tuple for a sequence given as a function (TLC cannot spill lazily
+\* represented function values in the state queue to disk)
+Tup(f) ==
+    CASE Len(f) = 0 -> <<>> [] Len(f) = 1 -> <<f[1]>> [] Len(f) = 2 -> <<f[1], f[2]>>
+      [] Len(f) = 3 -> <<f[1], f[2], f[3]>> [] Len(f) = 4 -> <<f[1], f[2], f[3], f[4]>>
+
 Record(step, sig) ==
     /\ hist' = Append(hist, step)
     /\ (Mode = "edges") => (IF Witness /\ sig # "" THEN EmitOncePerClass(sig, hist') ELSE EmitTrace(hist'))
@@ -735,8 +754,8 @@ Declare(ks) ==
     /\ decl' = [part |-> "C07", kinds |-> ks]
     /\ phase' = "declared"
     /\ Record([a |-> "Declare",
-               args |-> [kinds |-> ks, fields |-> DeclFields(ks), static |-> ks \in StaticStructs],
-               exp |-> [schema |-> DeclSchema(ks)]], "")
+               args |-> [kinds |-> ks, fields |-> Tup(DeclFields(ks)), static |-> ks \in StaticStructs],
+               exp |-> [schema |-> Tup(DeclSchema(ks))]], "")
 
 \* class signature of a bind case: path, relation, where, the kind there and, for
 \* an equal batch, the focused field's cell together with the null pattern
@@ -770,14 +789,14 @@ Bind(pt, cells, via, focus) ==
     /\ LET ks == decl.kinds
            schema == BatchSchema(DeclSchema(ks), pt)
            r == BindModel(ks, schema, cells)
-           base == [bound |-> r.bound, fields |-> r.fields, outcome |-> r.outcome]
-           disp == [bound |-> r.bound, fields |-> r.fields, outcome |-> r.outcome,
+           base == [bound |-> r.bound, fields |-> Tup(r.fields), outcome |-> r.outcome]
+           disp == [bound |-> r.bound, fields |-> Tup(r.fields), outcome |-> r.outcome,
                     etype |-> IF r.bound THEN "" ELSE IF r.outcome = "panic" THEN "PANIC" ELSE "TypeError",
                     calls |-> IF r.bound THEN 1 ELSE 0] IN
        /\ phase' = "done" /\ decl' = decl
        /\ Record([a |-> "Bind", cls |-> via \o ":" \o pt.rel \o ":" \o NullFlags(ks, cells),
-                  args |-> [rel |-> pt.rel, pos |-> pt.pos, how |-> pt.how, schema |-> schema,
-                            cells |-> cells, via |-> via, kinds |-> ks],
+                  args |-> [rel |-> pt.rel, pos |-> pt.pos, how |-> pt.how, schema |-> Tup(schema),
+                            cells |-> Tup(cells), via |-> via, kinds |-> ks],
                   exp |-> IF via = "direct" THEN base ELSE disp],
                  BindSig(ks, pt, cells, via, focus))
 
@@ -793,9 +812,9 @@ BindWrapped(pt) ==
            r == BindModel(ks, inner, cells) IN
        /\ phase' = "done" /\ decl' = decl
        /\ Record([a |-> "BindWrapped",
-                  args |-> [rel |-> pt.rel, pos |-> pt.pos, how |-> pt.how, schema |-> inner,
-                            cells |-> cells, kinds |-> ks],
-                  exp |-> [w_bound |-> r.bound, w_fields |-> r.fields]],
+                  args |-> [rel |-> pt.rel, pos |-> pt.pos, how |-> pt.how, schema |-> Tup(inner),
+                            cells |-> Tup(cells), kinds |-> ks],
+                  exp |-> [w_bound |-> r.bound, w_fields |-> Tup(r.fields)]],
                  "wrapped|" \o pt.rel \o "|" \o ToString(Len(ks)))
 
 \* a null for a default= field of a kind setFieldFromString does not parse
@@ -805,7 +824,7 @@ BindOddDefault(cell) ==
     /\ LET r == BindModel(decl.kinds, DeclSchema(decl.kinds), <<cell>>) IN
        /\ phase' = "done" /\ decl' = decl
        /\ Record([a |-> "BindOddDefault",
-                  args |-> [schema |-> DeclSchema(decl.kinds), cells |-> <<cell>>, kinds |-> decl.kinds],
+                  args |-> [schema |-> Tup(DeclSchema(decl.kinds)), cells |-> <<cell>>, kinds |-> decl.kinds],
                   exp |-> [odd_bound |-> r.bound, odd_outcome |-> r.outcome]], "")
 
 --------------------------------------------------------------------------
@@ -816,15 +835,15 @@ Init ==
     /\ TLCSet(1, {})
 
 Next ==
-    \/ \E s \in Shapes : Derive(s)
-    \/ \E s \in OddShapes : DeriveOdd(s)
+    \/ \E s \in (IF phase = "idle" /\ "C08" \in Parts THEN Shapes ELSE {}) : Derive(s)
+    \/ \E s \in (IF phase = "idle" /\ "C08" \in Parts THEN OddShapes ELSE {}) : DeriveOdd(s)
     \/ \E v \in (IF phase = "derived" THEN ValsOf(decl.shape.leaf, decl.shape.wrap) ELSE {}) : RoundTrip(v)
-    \/ \E ks \in (IF "C07" \in Parts THEN Structs \cup {<<"i32d">>} ELSE {}) : Declare(ks)
+    \/ \E ks \in (IF phase = "idle" /\ "C07" \in Parts THEN Structs \cup {<<"i32d">>} ELSE {}) : Declare(ks)
     \/ \E pt \in (IF phase = "declared" THEN Perturbations(Len(decl.kinds)) ELSE {}) :
           \/ \E cells \in CellPatterns(Len(decl.kinds), pt.rel), via \in Vias, focus \in 1 .. Len(decl.kinds) :
                 Bind(pt, cells, via, focus)
           \/ BindWrapped(pt)
-    \/ \E cell \in {"val", "null"} : BindOddDefault(cell)
+    \/ \E cell \in (IF phase = "declared" THEN {"val", "null"} ELSE {}) : BindOddDefault(cell)
 
 Spec == Init /\ [][Next]_vars
 
